@@ -36,7 +36,7 @@ theorem printA1_cell (cr cc : Int) (r : PRef) (hg : InGrid cr cc r) :
   simp only [List.nil_append]
   generalize hrow : (if r.absRow = true then r.row else r.row + cr) = row at *
   generalize hcol : (if r.absCol = true then r.column else r.column + cc) = col at *
-  have e1 : ¬ row < 1 := by omega
+  have e1 : ¬ (row < 1 ∨ row > (LAST_ROW : Int)) := by unfold LAST_ROW; omega
   have e2 : (decide (1 ≤ col) && decide (col ≤ ((16384 : Nat) : Int))) = true := by
     simp; omega
   simp only [e1, if_false, e2, if_true, Bool.false_eq_true]
